@@ -3,7 +3,7 @@ import copy
 from rpft.parsers.common.cellparser import CellParser
 from rpft.parsers.common.rowdatasheet import RowDataSheet
 from rpft.parsers.common.rowparser import RowParser
-from rpft.parsers.creation.flowrowmodel import Edge, FlowRowModel
+from rpft.parsers.creation.flowrowmodel import Condition, Edge, FlowRowModel
 from rpft.rapidpro.models.actions import Group
 from rpft.rapidpro.models.campaigns import Campaign
 from rpft.rapidpro.models.nodes import BaseNode
@@ -227,10 +227,19 @@ class FlowContainer:
         # and thus appear last in the sheet.
         for exit, edge in exits_edges[::-1]:
             if not exit.destination_uuid:
-                # If the edge leads nowhere, there's no way of encoding it in the sheet
-                # format.
-                # In practice, this means that cases/categories from routers may be
-                # dropped if they are not connected to anything.
+                # An edge that leads nowhere needs no row, unless it is what the
+                # case/category it stands for exists through: then a loose_exit
+                # row carries its condition.
+                if node.has_free_cases and edge.condition != Condition():
+                    short_id = temp_row_id.split("|")[1]
+                    self.rows.insert(
+                        0,
+                        FlowRowModel(
+                            row_id=f"{generate_new_uuid()}|exit.{short_id}",
+                            type="loose_exit",
+                            edges=[edge],
+                        ),
+                    )
                 continue
             child_node = self.find_node(exit.destination_uuid)
             if child_node.uuid in self.completed_nodes:
